@@ -158,7 +158,7 @@ func runC13(e *Env, p *Plan) {
 				e.Violate("C13.siblings-unaffected", "subscription tok=%d: received %d of %d, closed=%v", t.ID, len(st.Received), op.N, st.Closed)
 			}
 		}
-		if t.Execs != 1 && op.Kind != "rev" {
+		if t.Execs != 1 && op.Kind != "rev" && !t.Cancelled {
 			e.Violate("C13.siblings-unaffected", "tok=%d (%s): handler ran %d times", t.ID, op.Kind, t.Execs)
 		}
 	}
